@@ -220,6 +220,9 @@ func (s *Server) updateTypeCounts(typ string) func() {
 func addSubscription(m *match.Match, s *pb.SubscriptionList, c *matchClient) (remove func()) {
 	var removes []func()
 	prefix := path.ToStrings(s.Prefix, true)
+	// Clip the capacity: every append below must copy, because the removal
+	// closures keep the resulting slices.
+	prefix = prefix[:len(prefix):len(prefix)]
 	for _, sub := range s.Subscription {
 		p := sub.GetPath()
 		query := prefix
